@@ -34,7 +34,10 @@ RULE = ("quick: EVERY history of <=4 revisions in topological load order where e
         "complete transition relation, which subsumes all command sequences of any length); ALL sequences of <=3 commands on "
         "every history of <=2 revisions and of <=2 commands on 3 revisions (thorough: 3 on 3); seeded random histories of 5-10 revisions (shuffled load order, merges, "
         "dependencies, redundant parents) with <=8 random commands; seeded off-domain start states (duplicate rows without "
-        "primary key, non-antichain rows) where only the model/implementation comparison speaks. thorough adds the reversed "
+        "primary key, non-antichain rows) where only the model/implementation comparison speaks; version_table name / "
+        "version_table_schema (ATTACHed SQLite database) / version_table_pk variants on the real-sequence cases of <=3 revisions, "
+        "all 2-command sequences on 2 revisions and the random cases (every command re-reads the rows through the real "
+        "MigrationContext.get_current_heads / _has_version_table). thorough adds the reversed "
         "load order, parents that are both down_revision and depends_on, version_table name/schema/pk variants, all "
         "sequences of 3 commands on a sample of 4-revision histories and 10x the random cases. After EVERY step: rows as a "
         "multiset, every statement with its matched-row count, and the exception class are compared with the model; "
@@ -107,11 +110,11 @@ def transition_cases(n, both=False, rev_order=False, cfg=None, replay=False):
             yield {"g": g, "rows0": [], "cmds": cmds, "cfg": cfg, "kind": "replayed-n%d" % n}
 
 
-def sequence_cases(n, length):
+def sequence_cases(n, length, cfg=None):
     for down, deps in topo_graphs(n):
         g = _g(n, down, deps)
         for seq in itertools.product(commands(n), repeat=length):
-            yield {"g": g, "rows0": [], "cmds": [list(c) for c in seq], "cfg": None, "kind": "seq%d-n%d" % (length, n)}
+            yield {"g": g, "rows0": [], "cmds": [list(c) for c in seq], "cfg": cfg, "kind": "seq%d-n%d" % (length, n)}
 
 
 def rand_dag(rnd, n):
@@ -179,7 +182,13 @@ def generate(tier, seed):
         for ln in (1, 2, 3):
             if ln * n < 9 or tier == "thorough":
                 yield from sequence_cases(n, ln)
-    yield from random_cases(rnd, 600 if tier == "quick" else 6000, (None,) if tier == "quick" else CFGS)
+    # version_table name / version_table_schema (ATTACHed database) / version_table_pk variants: real multi-command
+    # sequences, the rows being read back by the real get_current_heads() at the start of every command
+    for cfg in CFGS[1:]:
+        for n in (2, 3):
+            yield from transition_cases(n, cfg=cfg, replay=True)
+        yield from sequence_cases(2, 2, cfg=cfg)
+    yield from random_cases(rnd, 600 if tier == "quick" else 6000, CFGS)
     yield from offdomain_cases(rnd, 300 if tier == "quick" else 3000)
     if tier == "thorough":
         yield from transition_cases(4, replay=True)
@@ -189,6 +198,7 @@ def generate(tier, seed):
             yield from transition_cases(n, both=True)
         for cfg in CFGS[1:]:
             yield from transition_cases(3, cfg=cfg)
+            yield from transition_cases(4, cfg=cfg)
         allg = list(topo_graphs(4))
         for down, deps in rnd.sample(allg, 40):
             g = _g(4, down, deps)
@@ -388,7 +398,9 @@ def run_case(h):
         "(%s, %s)" % (e, cf.lst("RevStep %d %s" % (r, cf.boolean(up)) for r, up in st)) for e, st in cmds_enc))
     cout = cf.lst(cf.lst(ob(x) for x in o) for o in outs)
     out = {"cmds": [[e, st] for e, st in cmds_enc], "obs": outs, "ndeps": {r["id"]: r["ndeps"] for r in enc if r["ndeps"]}}
-    shape = "%s%s" % (h.get("kind", "?"), "-" + "+".join(sorted(errs)) if errs else "")
+    cfg = h.get("cfg")
+    shape = "%s%s%s" % (h.get("kind", "?"), "" if not cfg else "-cfg:%s/%s/%s" % (cfg["table"], cfg["schema"], "pk" if cfg["pk"] else "nopk"),
+                        "-" + "+".join(sorted(errs)) if errs else "")
     return dict(cin=cin, cout=cout, out=out, nontrivial=nsteps > 0, shape=shape, steps=nsteps)
 
 
